@@ -153,8 +153,9 @@ def run(ctx):
     if vm is None:
         raise AnalysisError('anchor-lost role=value matcher')
 
-    # ---------------- C14.a totality of the whole matcher
-    dom = small.analyse(repo, excm, top, policy=pol, domain=MatcherDomain)
+    # ---------------- C14.a totality: the value matcher (with the operator filter inlined; its recursion is the same function,
+    #                  so "no escape from one activation" gives totality by induction), then the top level over it
+    dom = small.analyse(repo, excm, vm, policy=pol, domain=MatcherDomain)
     ca.evaluations += dom.visited_pairs
     partial = [n for n in dom.g.nodes if n.kind in ('subscript', 'compare') or
                (n.kind == 'call' and n.info['target'].raises)]
@@ -175,14 +176,31 @@ def run(ctx):
             res.add(Finding('C14', 'C14.a', 'R-TOTAL', n.file, n.frame.func.qualname, n.line, ast.unparse(n.ast),
                             'partial operation on an untyped metadata / filter value can raise (%s) and nothing on the path guards or '
                             'catches it: one odd recording or filter aborts the whole lookup' % en.info['exit'],
-                            witness=dom.path_to(en, es), entry=top.qualname, exit=en.info['exit']))
-    other = [src for src in escaped if src not in {(k[2] if by_site[k].kind != 'call' else by_site[k].info['target'].label) for k in by_site}]
-    for src in other:
+                            witness=dom.path_to(en, es), entry=vm.qualname, exit=en.info['exit']))
+    known = {(k[2] if by_site[k].kind != 'call' else by_site[k].info['target'].label) for k in by_site}
+    for src in [x for x in escaped if x not in known]:
         en, es = escaped[src]
-        res.add(Finding('C14', 'C14.a', 'R-TOTAL', top.file, top.qualname, top.node.lineno, 'exception from %s' % src,
-                        'the matcher can be left by an exception (%s)' % en.info['exit'], witness=dom.path_to(en, es)))
-    ca.instance('matcher exits: %d return states, %d escaping exception sources' % (
-        sum(1 for n, s in dom.exits if n.info['exit'] == 'return'), len(escaped)), top.qualname, not escaped)
+        res.add(Finding('C14', 'C14.a', 'R-TOTAL', vm.file, vm.qualname, vm.node.lineno, 'exception from %s' % src,
+                        'the value matcher can be left by an exception (%s)' % en.info['exit'], witness=dom.path_to(en, es)))
+    ca.instance('value matcher exits: %d return states, %d escaping exception sources' % (
+        sum(1 for n, s in dom.exits if n.info['exit'] == 'return'), len(escaped)), vm.qualname, not escaped)
+
+    class TopPolicy(MatcherPolicy):
+        def decide_inline(self, func, call, frame):
+            return func is not vm
+
+        def summary_target(self, fi, call, frame):
+            from ..cfg import Target
+            return Target('opaque', 'repo-summary:' + fi.qualname, raises=frozenset(), role='summary', func=fi)
+    dtop = small.analyse(repo, excm, top, policy=TopPolicy(repo, excm), domain=MatcherDomain)
+    ca.evaluations += dtop.visited_pairs
+    esc_top = [(n, s) for n, s in dtop.exits if n.info['exit'] != 'return']
+    ca.instance('top-level matcher adds no raise site of its own (%d partial operations)' % sum(
+        1 for n in dtop.g.nodes if n.kind in ('subscript', 'compare')), top.qualname, not esc_top)
+    for n, s in esc_top[:1]:
+        res.add(Finding('C14', 'C14.a', 'R-TOTAL', top.file, top.qualname, top.node.lineno, 'exception from %s' % s.extra.get('exc_src'),
+                        'the top-level matcher can be left by an exception (%s)' % n.info['exit'], witness=dtop.path_to(n, s)))
+    dom = dtop
 
     # ---------------- top level conjunction
     okc, why = conjunction_shape(dom, top)
@@ -324,6 +342,10 @@ def conjunction_ast(top, kinds=None):
     if len(loops) != 1:
         return False, 'expected one loop over the filter keys'
     lp = loops[0]
+    skips = [x for x in ast.walk(lp) if isinstance(x, (ast.Continue, ast.Break))]
+    if skips:
+        return False, 'the loop over the filter keys skips / leaves (`%s` at line %d) before a key was matched: that criterion is ignored' % (
+            type(skips[0]).__name__.lower(), skips[0].lineno)
     for r in [n for n in walk_own(top.node) if isinstance(n, ast.Return)]:
         inside = any(r is x for x in ast.walk(lp))
         val = r.value.value if isinstance(r.value, ast.Constant) else None
